@@ -20,7 +20,7 @@ from ..prov import derive, index_of
 from ..sym import Explorer, N, is_const, show, walk
 from ..wrules import model, w1, w5_repr
 
-TECHNIQUE = "static analysis: binrw layout/tag rules vs reference; dispatch facts of the file-type switch; derives-from and member-consistency obligations on the reassembly routines; acquire/release pairing on the CFG of the inflate wrapper"
+TECHNIQUE = "static analysis: binrw layout/tag rules vs reference; dispatch facts of the file-type switch; derives-from and member-consistency obligations on the reassembly routines; acquire/release pairing on the CFG of the inflate wrapper; classification of every failure exit of the block reader by its controlling test (dominator walk)"
 TRUSTED = ["pv/wire.py binrw model", "spec/layouts.txt (Lumina SqPack structs)", "rustc nightly MIR", "zlib API contract (inflateInit2_/inflate/inflateEnd)"]
 
 TYPES = ["sqpack::data::FileInfo", "sqpack::data::StandardFileBlock", "sqpack::data::Block", "sqpack::data::BlockHeader", "sqpack::data::ModelFileBlock", "sqpack::data::TextureBlock", "sqpack::data::TextureLodBlock"]
